@@ -33,7 +33,7 @@ def rule_width(F, R, crate_name):
                         if per[k] == 1:
                             R.violation(k, 'L-W', 'cell-index arithmetic (%s) is carried out in %s: indices reach n*n-1, which does not fit for n >= 256' % (s['rv']['op'], ty), s['loc'])
     # loop variables must not be narrow either (Range<u16> iteration keeps the arithmetic narrow)
-    for name, t in c.thir.items():
+    for name, t in c.ithir.items():
         if '<Args as clap::' in name: continue
         for e in walk(t['body']):
             if e['k'] == 'Adt' and canon(e['adt']) in ('std::ops::Range', 'std::ops::RangeInclusive'):
@@ -162,7 +162,7 @@ def is_push_to(varprefix):
 # ------------------------------------------------------------------------------------------------ C16
 def rule_max_clique(F, R):
     c = F.crate('max_clique_gen')
-    t = c.thir.get('max_clique_gen::main') if c else None
+    t = c.ithir.get('max_clique_gen::main') if c else None
     if t is None:
         R.violation('max_clique_gen::main / L / anchor', 'UNDECIDABLE', 'max_clique_gen::main not found'); return
     sites = push_sites(t, is_push_to('edges_complement'))
@@ -308,7 +308,7 @@ def rule_random_graph(F, R):
     if c is None:
         R.violation('random_graph_gen / L / anchor', 'UNDECIDABLE', 'crate not found'); return
     G = 'random_graph_gen::'
-    t = c.thir.get(G + 'generate_graph')
+    t = c.ithir.get(G + 'generate_graph')
     if t is None:
         R.violation(G + 'generate_graph / L / anchor', 'UNDECIDABLE', 'generate_graph not found')
     else:
@@ -364,7 +364,7 @@ def rule_random_graph(F, R):
                 R.obligation(a == '(v1,v2)', None)
                 if a != '(v1,v2)': R.violation(G + 'generate_graph / L / candidate pair', 'L', 'candidate pushed as %s' % a, call['loc'])
     # (c) --complete edge counts
-    m = c.thir.get(G + 'main')
+    m = c.ithir.get(G + 'main')
     if m is not None:
         found = False
         for e in walk(m['body']):
@@ -388,7 +388,7 @@ def rule_random_graph(F, R):
         if not found:
             R.violation(G + 'main / L / --complete anchor', 'UNDECIDABLE', 'cannot find the edge-count expression of --complete')
     # (d) read_graph
-    t = c.thir.get(G + 'read_graph')
+    t = c.ithir.get(G + 'read_graph')
     if t is not None:
         sites = push_sites(t, is_push_to('edges'))
         R.count('L:read_graph-push-sites', len(sites))
@@ -400,7 +400,7 @@ def rule_random_graph(F, R):
             R.obligation(a == '(edge[0],edge[1])', None)
             if a != '(edge[0],edge[1])': R.violation(G + 'read_graph / L / pair', 'L', '--convert must reproduce each edge as given; pushed %s' % a, call['loc'])
     # (e) augment_colors
-    t = c.thir.get(G + 'augment_colors')
+    t = c.ithir.get(G + 'augment_colors')
     if t is not None:
         sites = push_sites(t, is_push_to('new_edges'))
         R.count('L:colour-push-sites', len(sites))
@@ -432,8 +432,16 @@ def tokenize_text(pattern, text):
 def emitted_templates(c, fn_prefix):
     import engine_u
     out = []
-    for name, t in c.thir.items():
-        if not name.startswith(fn_prefix): continue
+    # the function itself and every closure reachable from it (closures of inlined helpers included)
+    todo = [fn_prefix]; seen = set()
+    while todo:
+        name = todo.pop()
+        if name in seen or name not in c.ithir: continue
+        seen.add(name)
+        for x in walk(c.ithir[name]['body']):
+            if x['k'] == 'Closure': todo.append(canon(x['def']))
+    for name in sorted(seen):
+        t = c.ithir[name]
         for x in walk(t['body']):
             if x['k'] == 'Literal' and x.get('lit') == 'ByteStr':
                 try: out.append((engine_u.decode_template(x['value']), x['loc']))
@@ -488,7 +496,7 @@ def rule_graph_writers(F, R):
     undirected, `a -> b` inside `digraph G {}` otherwise; the selection written is the one that was generated / converted / coloured."""
     import engine_u
     c = F.crate('random_graph_gen')
-    t = c.thir.get('random_graph_gen::main') if c else None
+    t = c.ithir.get('random_graph_gen::main') if c else None
     if t is None:
         R.violation('random_graph_gen::main / L / writers anchor', 'UNDECIDABLE', 'random_graph_gen::main not found'); return
     # walk the If-structure on args.dot / args.undirected and collect (context, template, argument fields, iterated variable)
@@ -549,8 +557,8 @@ def rule_colour_vertices(F, R):
     """C18 --colors: one product vertex `<v>_c<k>` per input vertex v and colour k in 0..N, mapped back to (v, k); N is the number given on the command line"""
     import engine_u
     c = F.crate('random_graph_gen')
-    t = c.thir.get('random_graph_gen::augment_colors') if c else None
-    m = c.thir.get('random_graph_gen::main') if c else None
+    t = c.ithir.get('random_graph_gen::augment_colors') if c else None
+    m = c.ithir.get('random_graph_gen::main') if c else None
     if t is None or m is None:
         R.violation('random_graph_gen::augment_colors / L / anchor', 'UNDECIDABLE', 'augment_colors not found'); return
     # colour range 0..num_colors
